@@ -189,6 +189,7 @@ impl Probe {
     if std::thread::panicking() {
       return;
     }
+    e::reraise_if_aborting();
     let id = self.id;
     enum Bad {
       AfterTerminal,
@@ -349,6 +350,7 @@ pub fn virtual_timer(d: Duration) -> futures::future::BoxFuture<'static, ()> {
 
 /// Advance virtual time and wake every timer that fell due.
 pub fn advance(dt: u64) {
+  e::reraise_if_aborting();
   let wakers: Vec<Waker> = w(|w| {
     w.now += dt;
     let now = w.now;
@@ -423,7 +425,10 @@ pub fn poll_task(i: usize) {
   if let Some(mut fut) = fut {
     let waker = Waker::from(Arc::new(FlagWaker(flag)));
     let mut cx = Context::from_waker(&waker);
-    match fut.as_mut().poll(&mut cx) {
+    let r = fut.as_mut().poll(&mut cx);
+    // rxRust's `Remote` catches panics raised inside a task: continue an engine abort
+    e::reraise_if_aborting();
+    match r {
       Poll::Ready(()) => {
         w(|w| {
           if let Some(t) = w.tasks.get_mut(i) {
@@ -629,6 +634,10 @@ fn lock_hook(ev: LockEvent, raw: usize) {
       });
     }
     return;
+  }
+  if std::env::var("SX_TRACE").is_ok() {
+    let (id, cur) = w(|w| (norm_lock(w, raw), w.threads.current));
+    e::note(format!("    [T{} {:?} lock#{}]", cur, ev, id));
   }
   match ev {
     LockEvent::Before => {
